@@ -514,6 +514,12 @@ def cases(ctx):
         for split in (-1, 0, 1, 2, 3):
             for compact in (False, True):
                 infos.append(("wlatexbody", dict(f, split=split, compact=compact)))
+    # ---- names outside ASCII, written through a file name (seeded change C12-6)
+    for u in (False, True):
+        infos.append(("wlatexdoc", dict(src="hand", cls="cnf", n=3, clauses=[[1, -2], [3], [-1, -3]], labels=["α", "β_1", "é^2"],
+                                        export_header=u, u=True, extra="§ ü\n" if u else "")))
+        infos.append(("wlatexdoc", dict(src="hand", cls="opb", n=2, constraints=[[[2, 1], [1, -2], ">=", 2]], labels=["α", "λ_{1,2}"],
+                                        export_header=u, u=True)))
     # ---- page sizes
     for m in PAGE_SIZES:
         infos.append(("wlatexdoc", dict(rand_cnf_info(rng, m), export_header=bool(m % 2))))
@@ -531,6 +537,9 @@ def cases(ctx):
         infos.append(("wopb", dict(base, export_header=True, export_varnames=True, u=bool(i % 3 == 0))))
         infos.append(("wlatex", dict(base)))
         infos.append(("wlatexdoc", dict(base, export_header=True, extra=s)))
+        if i % 2 == 0:
+            infos.append(("wlatexdoc", dict(base, export_header=True, extra=s, u=True)))
+            infos.append(("wlatexdoc", dict(base, export_header=False, u=True, fmt="latex")))
     for s in iolib.BREAK_STRINGS:
         infos.append(("wopb", dict(src="hand", cls="cnf", n=2, clauses=[[1], [-2]], hdr=[["description", s]], export_header=True, u=True)))
         infos.append(("wopb", dict(src="hand", cls="opb", n=2, constraints=[[[3, 1], "==", 3]], labels=[s], export_varnames=True, export_header=False)))
